@@ -336,6 +336,8 @@ fn timestamp_episode(ep: i64, rng: &mut Rng, lat: &[NaiveDate]) -> Episode {
     match rng.below(3) { 0 => want.extend(["year", "month", "day"]), 1 => want.extend(["year", "ordinal"]), _ => {} }
     if rng.chance(1, 2) { want.push("nanosecond"); }
     if rng.chance(2, 3) { want.push("offset"); }
+    // sometimes only the second next to the timestamp: the whole value is then rebuilt from timestamp + offset (and the leap-second rule)
+    if rng.chance(1, 3) { want.retain(|f| !["hour_div_12", "hour_mod_12", "minute"].contains(f)); }
     let mut chosen: Vec<_> = all.iter().filter(|f| want.contains(&f.0)).cloned().collect();
     let delta = *rng.pick(&[0i64, 0, 1, 1, -1, 2]);
     for f in chosen.iter_mut() { if f.0 == "timestamp" { f.2 += delta; } }
